@@ -1,0 +1,49 @@
+//go:build verif
+
+package discover
+
+import (
+	"net"
+
+	"gitlab.com/aquachain/aquachain/rlp"
+)
+
+// Thin exported wrappers around the unexported discv4 packet functions, for
+// the verification harness only (build tag verif).
+
+// VerifHeadSize is the size of the hash+signature envelope.
+const VerifHeadSize = headSize
+
+// VerifEncodePacket builds a signed datagram of the given type whose payload
+// is the given (already RLP-encoded) request.
+func VerifEncodePacket(netcompat bool, priv *PrivateKey, ptype byte, payload rlp.RawValue) (packet, hash []byte, err error) {
+	return encodePacket(netcompat, priv, ptype, payload)
+}
+
+// VerifDecodePacket decodes a datagram and returns the request's name and
+// canonical re-encoding together with the sender recovered from the signature.
+func VerifDecodePacket(netcompat bool, buf []byte) (name string, reqRLP []byte, fromID NodeID, hash []byte, err error) {
+	req, fromID, hash, err := decodePacket(netcompat, buf)
+	if err != nil || req == nil {
+		return "", nil, fromID, hash, err
+	}
+	reqRLP, eerr := rlp.EncodeToBytes(req)
+	if eerr != nil {
+		return req.name(), nil, fromID, hash, eerr
+	}
+	return req.name(), reqRLP, fromID, hash, nil
+}
+
+// VerifHandlePacket feeds one datagram to the table's UDP transport exactly as
+// the read loop does.
+func VerifHandlePacket(tab *Table, from *net.UDPAddr, buf []byte) error {
+	return tab.net.(*udp).handlePacket(from, buf)
+}
+
+// VerifPacketTypes returns the four packet type bytes in use for the mode.
+func VerifPacketTypes(netcompat bool) [4]byte {
+	if netcompat {
+		return [4]byte{ethpingPacket, ethpongPacket, ethfindnodePacket, ethneighborsPacket}
+	}
+	return [4]byte{aquapingPacket, aquapongPacket, aquafindnodePacket, aquaneighborsPacket}
+}
